@@ -5,7 +5,8 @@ CONSTANTS
   MaxAppends = 4
   MaxCrashes = 2
   MaxDamage = 1
-  DamageKinds = {"type", "crc"}
+  DamageKinds = {"type", "crc", "len"}
+  PayZero = {FALSE}
   ClearBehind = FALSE
 INIT Init
 NEXT Next
